@@ -72,6 +72,7 @@ type Config struct {
 	ET              []int  // election tick per replica (default 2)
 	MaxSizeOne      bool   // MaxSizePerMsg = MaxCommittedSizePerReady = 0 → one entry per message / Ready page
 	EarlySnapReport bool   // the transport reports a snapshot as sent when it leaves the sender, not when the receiver has stepped it
+	Deciding        string // when set, oracle failures of the other raft properties are counted but do not end the path: the state that breaks C01 is usually the one from which C03 breaks a few steps later
 	MixedSizes      bool   // MaxSizePerMsg = MaxCommittedSizePerReady = 100 bytes and proposals of 1 / 200 / 1 / 200 ... bytes
 
 	// budgets
@@ -123,6 +124,7 @@ type Cluster struct {
 	chosenAt map[uint64]uint64   // term of the replica that first reported the index committed
 	chain    map[uint64][16]byte // index → digest of applied prefix
 	bad      []explore.Bad
+	promoted uint64 // bit t: an add-voter change for replica t was applied by some replica (ground truth for the learner oracles)
 
 	// observation counters (vacuity guards), not part of the state
 	Obs     map[string]int
@@ -211,6 +213,10 @@ func (c *Cluster) Close() {
 }
 
 func (c *Cluster) fail(prop, sig, what string) {
+	if c.cfg.Deciding != "" && prop != c.cfg.Deciding {
+		c.Obs["failure-of-"+prop+":"+sig]++
+		return
+	}
 	c.bad = append(c.bad, explore.Bad{Property: prop, Signature: sig, What: what})
 }
 
@@ -369,12 +375,18 @@ func (c *Cluster) pump(nd *rnode, crashMode int) {
 	c.observe(nd, v, nil)
 }
 
+// learnerByHistory: the replica joined as a learner and no add-voter change for it has been applied anywhere,
+// whatever the replica itself believes after a restart.
+func (c *Cluster) learnerByHistory(nd *rnode) bool {
+	return nd.learner && c.promoted&(1<<nd.id) == 0
+}
+
 func (c *Cluster) sendAll(nd *rnode, msgs []pb.Message) {
 	v := raft.VerifNodeView(nd.n)
 	for _, m := range msgs {
 		if (m.Type == pb.MsgVoteResp || m.Type == pb.MsgPreVoteResp) && !m.Reject {
 			c.Obs["vote-granted"]++
-			if v.IsLearner {
+			if v.IsLearner || c.learnerByHistory(nd) {
 				c.fail("C01", "learner-grants-vote", fmt.Sprintf("learner %d granted %v to %d at term %d", nd.id, m.Type, m.To, m.Term))
 			}
 		}
@@ -406,7 +418,7 @@ func (c *Cluster) observe(nd *rnode, v raft.VerifView, rd *raft.Ready) {
 			c.leaderCompleteness(nd, v)
 		}
 	}
-	if v.IsLearner && (v.State == raft.StateLeader || v.State == raft.StateCandidate || v.State == raft.StatePreCandidate) {
+	if (v.IsLearner || c.learnerByHistory(nd)) && (v.State == raft.StateLeader || v.State == raft.StateCandidate || v.State == raft.StatePreCandidate) {
 		c.fail("C01", "learner-campaigns", fmt.Sprintf("learner %d is %v in term %d", v.ID, v.State, v.Term))
 	}
 	if v.State == raft.StateCandidate {
@@ -474,6 +486,12 @@ func (c *Cluster) applyEntry(nd *rnode, e pb.Entry) {
 	}
 	c.recordChosen(nd, e, "applies")
 	nd.applied = e.Index
+	if e.Type == pb.EntryConfChange {
+		var cc pb.ConfChange
+		if cc.Unmarshal(e.Data) == nil && cc.Type == pb.ConfChangeAddNode && cc.ReplicaID < 64 {
+			c.promoted |= 1 << cc.ReplicaID
+		}
+	}
 	// digest of the applied prefix (stands for the state machine content in snapshots)
 	prev := c.chain[e.Index-1]
 	h := md5.New()
@@ -969,6 +987,7 @@ func (c *Cluster) Key() explore.Key {
 		e.U64(uint64(u.tick))
 	}
 	e.Tag("hist")
+	e.U64(c.promoted)
 	terms := make([]uint64, 0, len(c.leaderOf))
 	for t := range c.leaderOf {
 		terms = append(terms, t)
